@@ -585,6 +585,31 @@ def r4(ctx):
     ctx.ob("C14.R4", f"{WM}._kill_object_by_local_id cancels requests for the killed id whether or not it was tracked",
            ok, kil.fi.where, "KillObject for an untracked local id leaves its requests pending")
 
+    # (c2) descendants of a killed id that is not tracked are its orphans: collected exactly when obj is unknown
+    lid = kil.params[2] if len(kil.params) > 2 else None
+    cos = [c for c in find_calls(kil.tree, "collect_orphans", into_defs=False) if c.args and ap(c.args[0]) == lid]
+    casc = [lp for lp in walk(kil.tree) if isinstance(lp, ast.For) and any(
+        c.args and len(c.args) >= 2 and ap(c.args[1]) == ap(lp.target)
+        for c in find_calls(lp, "_kill_object_by_local_id", into_defs=False))]
+    ok_co, why_co = False, f"no collect_orphans({lid}) call"
+    for c in cos:
+        fs = facts(c, kil.tree)
+        st = enclosing_stmt(c)
+        tgt = st.targets[0].id if isinstance(st, ast.Assign) and len(st.targets) == 1 and isinstance(st.targets[0], ast.Name) else None
+        feeds = any(isinstance(strip_copy(lp.iter)[0], ast.Name) and strip_copy(lp.iter)[0].id == tgt for lp in casc) or \
+            any(strip_copy(lp.iter)[0] is c for lp in casc)
+        lookup = [e for e, pol in fs if not pol and isinstance(e, ast.Name) and isinstance(single_def(kil.tree, e.id), ast.Call)
+                  and call_attr(single_def(kil.tree, e.id)) == "lookup_localid"]
+        if not feeds:
+            why_co = "the collected orphans do not feed the cascading kill loop"
+        elif not fs or (len(fs) == 1 and lookup):
+            ok_co = True
+        else:
+            why_co = (f"collect_orphans({lid}) is subject to {[(norm(e), p) for e, p in fs]}: orphans waiting for an "
+                      f"untracked killed parent survive although their ancestor was killed")
+    ctx.ob("C14.R6", f"{WM}._kill_object_by_local_id cascades to the orphans of an untracked killed id", ok_co,
+           kil.fi.where, why_co)
+
     # (d) partial-key filters must not stop early
     nloops = 0
     for f in [f for f in repo.all_funcs if f.parent_fn is None and f.module.rel in ANCHOR_FILES]:
@@ -722,7 +747,7 @@ def r4(ctx):
     for c in srs:
         recv = ap(c.func.value) if isinstance(c.func, ast.Attribute) else None
         ok = guarded_catch_all(c, res.tree) or any(
-            isinstance(e, ast.Call) and call_attr(e) in ("done", "cancelled") and isinstance(e.func, ast.Attribute)
+            isinstance(e, ast.Call) and call_attr(e) == "done" and isinstance(e.func, ast.Attribute)
             and ap(e.func.value) == recv and not pol for e, pol in facts(c, res.tree))
         ok = ok or any(isinstance(h.type, ast.AST) and "InvalidStateError" in ast.unparse(h.type)
                        for a in ancestors(c) if isinstance(a, ast.Try) for h in a.handlers)
@@ -835,11 +860,13 @@ def _child_loops(fn: Fn, base_path: str):
 
 def _iter_eval_node(fn: Fn, lp):
     """CFG node(s) at which the iterated sequence of `lp` is computed."""
+    if strip_copy(lp.iter)[1]:
+        return fn.cfg.nodes_for(lp)          # copied when the loop is entered
     if isinstance(lp.iter, ast.Name):
         d = single_def(fn.tree, lp.iter.id)
-        if d is not None:
-            return fn.nodes(d)
-    return fn.cfg.nodes_for(lp)
+        if d is not None and strip_copy(d)[1]:
+            return fn.nodes(d)               # snapshot taken where the name is bound
+    return fn.cfg.nodes_for(lp)              # alias of the live list: read while iterating
 
 
 def r6(ctx):
